@@ -136,9 +136,10 @@ def readbackMonitors (s : St) (impl : String) : List Fail := Id.run do
   | none => pure ()
   | some enfI =>
     let a := advOf s.ghostWire
-    let known := (uncovered a s.enfGhost).map (·.1)
+    -- a listed finding explains a mismatch only if the component enforces exactly the Config-derived value
+    let known := uncovered a s.enfGhost
     for (k, adv, e) in uncovered a enfI do
-      let cls := if known.contains k then classOfKind k else "-"
+      let cls := if known.any (fun (k', _, e') => k' == k && e' == e) then classOfKind k else "-"
       fails := fails ++ [("no_local_error_within_advertised", cls, s!"read-back: {k} advertised {adv} but the component enforces {e}: a peer at the advertised boundary is answered with a local error")]
   return fails
 
